@@ -163,18 +163,21 @@ def build_files(n, es, kinds, ns, real, spelling="attribute"):
             d["size"] = i + 1
         else:
             fields = [{"name": "own%d" % i, "type": "int", "doc": "tmp/*/cache // %d" % i}]
-            for (e, r) in zip(es, real):
+            pairs = list(zip(es, real))
+            if "reversed" in spelling:
+                pairs.reverse()  # the reference fields in the opposite order: another type becomes the first use
+            for (e, r) in pairs:
                 if e[0] != i:
                     continue
                 kind, qualified, twice = r
                 nm = ref_name(e[0], e[1], ns, qualified)
                 f = {"name": "e%d_%d" % e, "type": use(kind, nm), "doc": "*/ closing first, then /* opening"}
-                if spelling == "with-defaults":
+                if "with-defaults" in spelling:
                     f["default"] = default_of_use(kind, e[1], es, real, kinds)
                 fields.append(f)
                 if twice:
                     f2 = {"name": "e%d_%d_again" % e, "type": use("array" if kind != "array" else "map", nm)}
-                    if spelling == "with-defaults":
+                    if "with-defaults" in spelling:
                         f2["default"] = [] if kind != "array" else {}
                     fields.append(f2)
             d["fields"] = fields
@@ -262,6 +265,11 @@ def units(tier):
         for gi, es in enumerate(dags(n)):
             for ki, kinds in enumerate(sink_kind_options(n, es)):
                 us.append((n, gi, ki))
+    if tier == "quick":
+        # four types: every graph and kind assignment, but only the base realisation and its first deviations
+        for gi, es in enumerate(dags(4)):
+            for ki, kinds in enumerate(sink_kind_options(4, es)):
+                us.append(("four", gi, ki))
     return us
 
 
@@ -273,7 +281,7 @@ def check_repo(fa, res, tmpdir, n, es, kinds, ns, real, seen, tier, layout="plai
     from fastavro._schema_common import UnknownType
     from fastavro.repository.base import SchemaRepositoryError
 
-    files = build_files(n, es, kinds, ns, real, layout if layout in ("dotted-name", "with-defaults") else "attribute")
+    files = build_files(n, es, kinds, ns, real, layout if layout in ("dotted-name", "with-defaults", "with-defaults-reversed", "reversed") else "attribute")
     root = full(0, ns)
     ident = json.dumps([n, es, kinds, ns, real, layout])
     if ident in seen:
@@ -414,6 +422,9 @@ def run_unit(unit, tier):
         res.distinct = len(seen)
         res.sample({"chain_depth": gi})
         return res
+    few = n == "four"
+    if few:
+        n = 4
     es = dags(n)[gi]
     kinds = sink_kind_options(n, es)[ki]
     seen = set()
@@ -421,6 +432,8 @@ def run_unit(unit, tier):
     try:
         for ns in ns_options(n):
             reals = realisations(es, ns, tier)
+            if few:
+                reals = reals[:1] + reals[1:200:23]
             for real in reals:
                 check_repo(fa, res, tmpdir, n, es, kinds, ns, real, seen, tier)
             for real in reals[:3]:
@@ -431,6 +444,11 @@ def run_unit(unit, tier):
             if es:
                 for real in reals[:60:2]:
                     check_repo(fa, res, tmpdir, n, es, kinds, ns, real, seen, tier, layout="with-defaults")
+            if len(es) >= 2:
+                for real in reals[:60:2]:
+                    check_repo(fa, res, tmpdir, n, es, kinds, ns, real, seen, tier, layout="with-defaults-reversed")
+                for real in reals[:90:3]:
+                    check_repo(fa, res, tmpdir, n, es, kinds, ns, real, seen, tier, layout="reversed")
     finally:
         shutil.rmtree(tmpdir, ignore_errors=True)
     res.distinct = len(seen)
